@@ -25,7 +25,8 @@ the nulls filled in) are observed on the shared object AND with a fresh copy of 
 
 Unit stream (`kind = "unit"`): `null_handling.find_nulls(value)` / `null_handling.drop_rows(value, indices)` called
 directly on a generated value of EVERY type they dispatch on (None, str, int, float, bool, numpy scalars, list, dict,
-narwhals Series, pandas Series / DataFrame, 0/1/2/3-d ndarray, csc / csr sparse matrix, tuple / object; bare or wrapped in
+narwhals Series, pandas Series / DataFrame, 0/1/2/3-d ndarray (float, object and string dtype), pandas Categorical / masked
+extension array / Index, csc / csr sparse matrix, tuple / object; bare or wrapped in
 `FactorValues`), `indices` sorted / unsorted / with repeats / as tuple / out of range / empty, against
 `Model.Nulls.findNulls` / `dropRowsV`.
 
@@ -126,6 +127,18 @@ ASSUMPTIONS = [
     "known finding C06-F1 (pinned by tests/utils/test_null_handling.py)",
     "values no encoder can turn into columns whatever the policy (3-d arrays, unknown objects, 0-d arrays) fail under every "
     "policy; the oracle treats a failure that also occurs on the null-free sub-frame as outside the property",
+    "a DROP call that RAISES after factor evaluation began (a contrast that cannot be built, an unknown name, a null check that "
+    "fails on a later factor) returns nothing, yet leaves in the caller's set the null rows of the factors checked before the "
+    "failure (no rollback; which factors those are is the iteration order of a Python set): the oracle only bounds that content "
+    "(caller's rows plus null rows, theorem drop_failure_adds_only_null_rows); 'the set equals the rows removed' is demanded of "
+    "calls that return (reviewers' item d5, left as is)",
+    "negative drop positions (numpy-style: -1 = last row) are outside the generated class: the code neither rejects nor "
+    "normalises them, so the row is removed while the set keeps the negative number, and `nrows - len(drop_rows)` is wrong when a "
+    "row is listed under both spellings (reviewers' item d7, left as is)",
+    "'pandas output' = output='pandas' AND the pandas frame that output='narwhals' hands back for pandas-backed data (bare or "
+    "narwhals-wrapped): both must carry the labels of the kept rows; frames without row labels (pyarrow) are not checked for labels",
+    "pandas' own 1-d arrays (Categorical, masked / string / Arrow-backed ExtensionArrays) and Index objects are, to the model, 1-d "
+    "arrays without row labels (Value.array1): null cells by the per-cell definition on `.tolist()`, removal by position",
 ]
 RULE = (
     "frames of 1-12 rows: float columns a,b,c (NaN), nullable Int64 k (pandas.NA), object text A (None), Categorical B (NaN), "
@@ -136,7 +149,9 @@ RULE = (
     "factors: constants ({1.5}, {2}, {True}, {NAN}, numpy float32/int64/bool scalars, {v.max()}, {k.max()}), lists, 1-d / 2-d / "
     "0-d / 3-d arrays, data frames, dicts (mixed Series / list / array / constant members, hidden `__` members, nested), "
     "categorical dicts (FactorValues(dict, kind='categorical')), values of kind 'constant', a factor that evaluates to None, "
-    "unknown objects, C()/hashed() of lists and arrays; "
+    "unknown objects, C()/hashed() of lists and arrays; numpy arrays of strings / Python objects (np.where / np.select of text, "
+    "np.array(list, dtype=object), 1-d / 2-d / 0-d, bare and inside C() / hashed() / dicts), pandas' own arrays (pd.Categorical, pd.cut, "
+    "pd.array Float64 / Int64 / string) and pd.Index values, bare and inside C() / hashed() / dicts; "
     "x na_action (string | NAAction member | invalid string) x caller drop set (none / empty / random subset) x entry point "
     "(sugar, formula, modelspec +-overrides +-fitted, modelspecs +-overrides +-fitted, materializer, per-spec generation (parts naming different materializers)) x output "
     "x materializer. "
@@ -151,7 +166,11 @@ RULE = (
     "PLUS shared-set histories: ONE caller set object handed to 2-3 calls through different entry points, first a raising "
     "raise-policy call, then ignore / drop / raise calls on the same or the null-free data; every call observed on the shared "
     "object and with a fresh copy of its content; the set is read after EVERY call, also after a raising one. "
-    "PLUS unit cases: find_nulls / drop_rows called directly on every value type (bare / FactorValues-wrapped), indices "
+    "PLUS a native-output sub-stream: NarwhalsMaterializer with output 'narwhals' over labelled pandas frames (bare / "
+    "narwhals-wrapped), a third of them with a part without columns (`~ 0`): the pandas frame that comes back must carry the labels "
+    "of the kept rows. "
+    "PLUS unit cases: find_nulls / drop_rows called directly on every value type (bare / FactorValues-wrapped; object / string "
+    "ndarrays, Categorical, Float64 extension array and Index included), indices "
     "sorted / unsorted / repeated / tuple / out of range / empty. "
     "non-trivial = drop policy, at least one row removed and one kept (unit: a value with rows and a non-empty index list "
     "or a null cell); distinct by canonical JSON"
@@ -163,7 +182,8 @@ VARIANT = os.environ.get("VERIF_C06_VARIANT", "current")
 
 NUM = ["a", "b", "c"]
 # (terms whose values depend on which rows are present: the sub-frame comparison does not apply to them)
-STATEFUL = ("center(", "scale(", "poly(", "bs(", ".max()", "len(")
+# (a Categorical made inside the formula takes its levels from the rows that are present, and keeps them when rows go)
+STATEFUL = ("center(", "scale(", "poly(", "bs(", ".max()", "len(", "pd.Categorical(", "pd.cut(")
 NULLCHECK = ("NullsPresent", "ConstantNull", "TooManyDims", "NoFindNulls")
 
 
@@ -191,7 +211,7 @@ def KONST(x):
 
 
 # names that value-shaped Python factors may use (passed as `context=` to every entry point)
-CTX = {"np": numpy, "FR": FR, "NAN": float("nan"), "Opaque": Opaque, "CAT": CAT, "KONST": KONST, "NONE": lambda: None}
+CTX = {"np": numpy, "pd": pandas, "FR": FR, "NAN": float("nan"), "Opaque": Opaque, "CAT": CAT, "KONST": KONST, "NONE": lambda: None}
 
 
 INF_STREAM = [False]  # (set while a case of the infinite-cells sub-stream is being generated)
@@ -218,6 +238,22 @@ def gen_value_term(rng):
         "{np.array(1.5)}", "{np.array(NAN)}", f"{{np.zeros((len({v}), 1, 1))}}", "{Opaque()}",
         # the explicit encoders on other storage
         "C(A.to_list())", f"C({v}.to_numpy())", "hashed(A.to_list(), levels=3)", f"hashed({v}.to_list(), levels=2)",
+    ]
+    # numpy arrays of strings / Python objects (no float dtype: numpy.isnan is undefined on them)
+    pool += [
+        f"C(np.where({v}.to_numpy() > 4, 'hi', 'lo'))", f"C(np.select([{v}.to_numpy() > 6, {w}.to_numpy() > 3], ['h', 'm'], 'l'))",
+        "C(np.array(A.to_list(), dtype=object))", "{np.array(A.to_list(), dtype=object)}", f"{{np.array({v}.to_list(), dtype=object)}}",
+        f"C(np.array({v}.to_list(), dtype=object))", f"{{np.array([{v}.to_list(), {w}.to_list()], dtype=object).T}}",
+        "{np.array(A.to_list(), dtype=object)}", f"hashed(np.array(A.to_list(), dtype=object), levels=3)",
+        f"{{dict(u=np.array({v}.to_list(), dtype=object), w={w})}}", "{np.array(None, dtype=object)}", "{np.array('s')}",
+    ]
+    # pandas' own 1-d arrays (Categorical, masked / string extension arrays) and Index objects
+    pool += [
+        "{pd.Categorical(A.to_list())}", "{pd.Categorical(B.to_list())}", "C(pd.Categorical(A.to_list()))",
+        f"{{pd.cut({v}.to_numpy(), 2)}}", f"{{pd.array({v}.to_list(), dtype='Float64')}}", "{pd.array(k.to_list(), dtype='Int64')}",
+        f"{{pd.Index({v}.to_list(), dtype=float)}}", "{pd.Index(A.to_list())}", "C(pd.Index(A.to_list()))", f"C(pd.array({v}.to_list(), dtype='Float64'))",
+        "{pd.array(A.to_list(), dtype='string')}", f"hashed(pd.Index({v}.to_list(), dtype=float), levels=2)",
+        f"{{dict(u=pd.array({v}.to_list(), dtype='Float64'), w=pd.Index({w}.to_list(), dtype=float))}}",
     ]
     return rng.choice(pool)
 
@@ -427,6 +463,24 @@ def _gen_case(rng, tier, malformed=False, infs=False):
     )
 
 
+def gen_native(rng, tier):
+    """NarwhalsMaterializer with its default output ("narwhals": the native frame) over a labelled pandas frame (bare or
+    narwhals-wrapped): what comes back is a pandas frame and must carry the labels of the kept rows — also a part without
+    columns (`~ 0`)"""
+    c = gen_case(rng, tier)
+    if rng.random() < 0.35:
+        part = gen_part(rng)
+        c["formula"] = rng.choice([part + " ~ 0", part + " ~ 0", "0 ~ " + part, part + " ~ 0 | " + gen_part(rng)])
+        c["entry"] = rng.choice(["sugar", "formula", "modelspecs", "materializer"])
+    if c["frame"] not in ("pandas", "nwframe"):
+        c["frame"] = rng.choice(["pandas", "pandas", "nwframe"])
+        c["index"] = gen_index(rng, c["nrows"])
+    if c["entry"] == "nonjoint":
+        c["entry"] = "modelspecs"
+    c["mat"], c["output"] = "narwhals", "narwhals"
+    return c
+
+
 def gen_sethist(rng, tier):
     """ONE caller set object handed, as drop_rows, to 2-3 calls through different entry points; the first call has the
     raise policy on data with nulls (it raises: the set must stay as it was); the later calls — ignore, drop, raise, on
@@ -471,7 +525,13 @@ def sethist_call(c, k, caller):
 
 UNIT_TYPES = ["none", "str", "int", "float", "nan", "bool", "np_float64", "np_nan", "np_float32", "np_int64", "np_bool",
               "list", "list", "dict", "dict", "nw", "nw_arrow", "series", "series", "series_idx", "frame", "array0",
-              "array0_nan", "array1", "array1", "array2", "array2", "array3", "csc", "csr", "tuple", "object"]
+              "array0_nan", "array1", "array1", "array2", "array2", "array3", "csc", "csr", "tuple", "object",
+              # arrays of Python objects / strings; pandas' own 1-d arrays (Categorical, masked) and Index
+              "array1_obj", "array1_obj", "array1_str", "array2_obj", "array0_obj", "array0_none",
+              "categorical", "categorical", "ext_float", "ext_float", "index", "index"]
+
+CELL_TYPES = ("list", "nw", "nw_arrow", "series", "series_idx", "array1", "array1_obj", "array1_str", "categorical",
+              "ext_float", "index")
 
 
 def gen_cells(rng, n, pnull, pinf=0.0):
@@ -484,9 +544,13 @@ def gen_unit_value(rng, depth=0, nulls=True):
     n = rng.randint(0, 7)
     pnull = rng.choice([0.0, 0.2, 0.5]) if nulls else 0.0
     pinf = rng.choice([0.0, 0.1, 0.25]) if nulls else 0.0  # (find_nulls cases only: infinite cells are not null)
-    if t in ("list", "nw", "nw_arrow", "series", "series_idx", "array1"):
+    if t == "array1_str":  # (a string cannot be null)
+        return dict(t=t, cells=gen_cells(rng, n, 0.0, 0.0))
+    if t == "categorical":  # (levels are finite numbers)
+        return dict(t=t, cells=gen_cells(rng, n, pnull, 0.0))
+    if t in CELL_TYPES:
         return dict(t=t, cells=gen_cells(rng, n, pnull, pinf))
-    if t in ("frame", "array2", "csc", "csr"):
+    if t in ("frame", "array2", "array2_obj", "csc", "csr"):
         k = rng.randint(0, 3)
         cols = [gen_cells(rng, n, pnull, pinf) for _ in range(k)]
         if pinf and k >= 2:
@@ -537,6 +601,8 @@ def cases(rng, tier):
         yield gen_case(rng, tier, malformed=True)
     for _ in range({"quick": 220, "thorough": 1500, "search": 60}[tier]):
         yield gen_case(rng, tier, infs=True)  # infinite cells (not null), both signs in one row of multi-column values
+    for _ in range({"quick": 120, "thorough": 900, "search": 60}[tier]):
+        yield gen_native(rng, tier)  # NarwhalsMaterializer, output "narwhals" on pandas-backed data: a pandas frame comes back
     for _ in range({"quick": 110, "thorough": 1200, "search": 60}[tier]):
         yield gen_history(rng, tier)
     for _ in range({"quick": 140, "thorough": 1200, "search": 60}[tier]):
@@ -705,10 +771,25 @@ def value_desc(values):
         d = w.toarray()
         return {"t": "sparse", "csc": isinstance(w, spsparse.csc_matrix), "n": int(d.shape[0]),
                 "cols": [_null_pos(d[:, j].tolist()) for j in range(d.shape[1])]}
+    if isinstance(w, (pandas.api.extensions.ExtensionArray, pandas.Index)) and not isinstance(w, pandas.MultiIndex):
+        # pandas' own 1-d arrays (Categorical, masked / string / Arrow-backed) and Index objects: 1-d arrays without row
+        # labels (`Value.array1` in the model); "store" says which class it is (the oracle wants drop_rows to keep it)
+        xs = w.tolist()
+        return {"t": "array1", "len": len(xs), "nulls": _null_pos(xs), "store": _store(w)}
     if hasattr(w, "to_list") and hasattr(w, "is_null"):  # narwhals series
         xs = w.to_list()
         return {"t": "nw", "len": len(xs), "nulls": _null_pos(xs)}
     return {"t": "other", "type": type(w).__name__}
+
+
+def _store(w):
+    if isinstance(w, pandas.Categorical):
+        return "categorical"
+    if isinstance(w, pandas.Index):
+        return "index"
+    if isinstance(w, pandas.api.extensions.ExtensionArray):
+        return "extension"
+    return "ndarray"
 
 
 def desc_null_rows(d):
@@ -841,7 +922,11 @@ def observe_part(mm, output):
     elif output == "sparse":
         arr, idx = mm.toarray(), None
     elif output == "narwhals":
+        # the native frame (or a narwhals frame around it): when that is a pandas frame it has row labels
         idx = None
+        native = mm.to_native() if hasattr(mm, "to_native") else getattr(mm, "__wrapped__", mm)
+        if isinstance(native, pandas.DataFrame):
+            idx = [lab(x) for x in native.index]
         if hasattr(mm, "to_numpy"):
             arr = numpy.asarray(mm.to_numpy())
             if hasattr(mm, "columns"):
@@ -942,14 +1027,16 @@ def expected_rows(c, pr):
 
 def clean_error(c, df, probes, rerun=None):
     """Does the same formula/output/materializer fail even on the frame that consists of just the rows that must
-    survive, with no drop set (policy raise; for `ignore` the null rows stay, so policy ignore)? Then the failure
+    survive, with no drop set and no null check (policy ignore)? Then the failure
     has nothing to do with removing rows (e.g. output='narwhals' cannot encode a one-level factor).
     `rerun(frame, policy)`: how to repeat the call (default: through the entry point named by the case)."""
     if c["kind"] not in ("call", "oor"):
         return None
     mat = c["mat"]
     K = expected_rows(c, probes[mat] if mat in probes else next(iter(probes.values())))
-    c2 = dict(c, policy="ignore" if c["policy"] == "ignore" else "raise", caller=None, na="text")
+    # (policy ignore: no null check runs, so a null check that cannot digest a null-free value — a string ndarray, a
+    #  Categorical — is NOT excused as a failure that has nothing to do with missing data)
+    c2 = dict(c, policy="ignore", caller=None, na="text")
     try:
         if rerun is not None:
             rerun(subframe(df, K), c2["policy"])
@@ -1177,7 +1264,8 @@ def build_unit_value(v, labels=None):
     consts = {"none": None, "str": "abc", "int": 3, "float": 1.5, "nan": float("nan"), "bool": True,
               "np_float64": numpy.float64(1.5), "np_nan": numpy.float64("nan"), "np_float32": numpy.float32(2.5),
               "np_int64": numpy.int64(3), "np_bool": numpy.bool_(True), "tuple": (1.0, 2.0),
-              "array0": numpy.array(1.5), "array0_nan": numpy.array(numpy.nan)}
+              "array0": numpy.array(1.5), "array0_nan": numpy.array(numpy.nan),
+              "array0_obj": numpy.array("abc", dtype=object), "array0_none": numpy.array(None, dtype=object)}
     if t in consts:
         return consts[t]
     if t == "object":
@@ -1198,6 +1286,25 @@ def build_unit_value(v, labels=None):
         return pandas.Series(_fl(v["cells"]), dtype=float, index=(labels or list(range(len(v["cells"]))))[:len(v["cells"])])
     if t == "array1":
         return numpy.array(_fl(v["cells"]), dtype=float)
+    objs = [None if x is None else float(x) if isinstance(x, str) else float(x + 1) for x in v.get("cells", [])]
+    if t == "array1_obj":
+        out = numpy.empty(len(objs), dtype=object)
+        out[:] = objs
+        return out
+    if t == "array1_str":
+        return numpy.array([str(x) for x in objs], dtype=str)
+    if t == "categorical":
+        return pandas.Categorical(objs)
+    if t == "ext_float":
+        return pandas.array(objs, dtype="Float64")
+    if t == "index":
+        return pandas.Index(_fl(v["cells"]), dtype=float)
+    if t == "array2_obj":
+        n, k = v["n"], len(v["cols"])
+        out = numpy.empty((n, k), dtype=object)
+        for j, col in enumerate(v["cols"]):
+            out[:, j] = [None if x is None else float(x) if isinstance(x, str) else float(x + 1) for x in col]
+        return out
     if t in ("frame", "array2", "csc", "csr"):
         n, k = v["n"], len(v["cols"])
         dense = numpy.empty((n, k), dtype=float)
@@ -1227,9 +1334,11 @@ def observe_value(r):
         return {"t": "list", "n": None, "cols": [_ids(r)]}
     if isinstance(r, pandas.Series):
         return {"t": "series", "n": None, "cols": [_ids(r.tolist())], "index": [lab(x) for x in r.index]}
+    if isinstance(r, (pandas.api.extensions.ExtensionArray, pandas.Index)):
+        return {"t": "array1", "n": None, "cols": [_ids(r.tolist())], "store": _store(r)}
     if isinstance(r, numpy.ndarray):
         if r.ndim == 1:
-            return {"t": "array1", "n": None, "cols": [_ids(r.tolist())]}
+            return {"t": "array1", "n": None, "cols": [_ids(r.tolist())], "store": "ndarray"}
         if r.ndim == 2:
             return {"t": "array2", "n": int(r.shape[0]), "cols": [_ids(r[:, j].tolist()) for j in range(r.shape[1])]}
         return {"t": "arrayN" if r.ndim > 2 else "array0", "n": int(r.shape[0]) if r.ndim else None, "cols": []}
@@ -1320,6 +1429,8 @@ def _oracle_unit(c, o):
     got_t = "sparse" if r["t"] in ("csc", "csr") else r["t"]
     if got_t != want_t:
         return f"drop_rows turned a {want_t} into a {r['t']}"
+    if want_t == "array1" and r.get("store") != d.get("store", "ndarray"):
+        return f"drop_rows turned a 1-d array of class {d.get('store', 'ndarray')} into one of class {r.get('store')}"
     # (cell i holds the number i: what is left must be the cells at the positions not listed, in order)
     src = c["value"]
     cols = [src["cells"]] if "cells" in src else src.get("cols", [])
@@ -1367,9 +1478,11 @@ def request(c, o):
         for i, ci, oi in sethist_calls(c, o):
             r = _request_call(ci, oi)
             prev = o["calls"][i - 1] if i else None
-            if prev is not None and c["calls"][i - 1]["policy"] == "drop" and prev.get("error") in NULLCHECK:
-                # what a drop call whose null check raised left in the set depends on the order of the checks (not modelled):
-                # the model continues from the observed content
+            if prev is not None and c["calls"][i - 1]["policy"] == "drop" and prev.get("error"):
+                # what a drop call whose null check raised left in the set depends on the order of the checks (not modelled);
+                # a drop call that fails for a reason the model does not follow (a container that takes no constant column:
+                # `clean_error`) may fail before or after the null checks: the model continues from the observed content
+                # (which the oracle bounds: caller's rows plus null rows)
                 r["set_override"] = o["before"][i]
             calls.append(r)
         return dict(op="sethistory", variant=VARIANT, set=c["original"], calls=calls)
@@ -1532,7 +1645,7 @@ def _agree_call(c, o, m):
         bi = b["index"]
         if isinstance(bi, dict):
             bi = [f"i:{i}" for i in range(bi["range"])]
-        if c["output"] == "pandas" and a["index"] != bi:
+        if c["output"] in ("pandas", "narwhals") and a["index"] != bi:
             return f"part {j}: impl index {a['index']}, model {bi}"
     if o["final"] != m["final"]:
         return f"caller's drop set afterwards: impl {o['final']}, model {m['final']}"
@@ -1697,7 +1810,8 @@ def _oracle_call(c, o):
     # Every entry point — also ModelSpecs whose parts name different materializers and are generated one by one
     # (`entry = nonjoint`) — must give ALL parts the same rows: those that are null in no part and not listed by the caller.
     how = " (parts generated one by one with a shared drop set)" if c["entry"] == "nonjoint" else ""
-    check_index = c["output"] == "pandas" and c["frame"] != "arrow"
+    # (pandas output: `output="pandas"`, and the pandas frame `output="narwhals"` hands back for pandas-backed data)
+    check_index = c["output"] in ("pandas", "narwhals") and c["frame"] != "arrow"
     if pol == "ignore" and caller:
         for j, p in enumerate(o["parts"]):
             if p["kept"] is not None and (not _inc(p["kept"]) or not (set(range(n)) - caller) <= set(p["kept"])):
@@ -1710,10 +1824,13 @@ def _oracle_call(c, o):
             return f"{pol} policy{how}: part {j} contains rows {p['kept']}; the rows with no null factor in any part (nulls in {sorted(nulls)}) not listed by the caller ({sorted(caller)}) are {want}"
         if p["nrows"] != len(want):
             return f"{pol} policy{how}: part {j} has {p['nrows']} rows; {len(want)} rows must remain ({want})"
-        if check_index and p["kept"] is not None and p["index"] is not None:
-            wl = [labels[i] for i in p["kept"] if 0 <= i < n]
+        if check_index and p["index"] is not None:
+            # (a part without the row-id column — `~ 0` — holds the rows `want` too: nothing else may remain)
+            rows = p["kept"] if p["kept"] is not None else want
+            wl = [labels[i] for i in rows if 0 <= i < n]
             if p["index"] != wl:
-                return f"part {j}: output index is {p['index']}; the labels of the kept rows {p['kept']} are {wl}"
+                return (f"part {j}: {c['output']} output ({c['mat']} materializer) is labelled {p['index']}; the labels of the kept rows "
+                        f"{rows} are {wl}")
     if c["caller"] is not None:
         want_final = sorted(bad)
         if o["final"] != want_final:
